@@ -190,10 +190,17 @@ def library_supported(alg, op, cfg):
     return False
 
 
-def reference_for(accepted):
+def declared_supported(alg, op, cfg):
+  """Support predicate read independently from the declared JSON policy (vf/oracle/policy.py)."""
+  from ai_edge_quantizer import default_policy
+  from vf.oracle import policy
+  return policy.supported(default_policy.DEFAULT_JSON_POLICY, str(getattr(alg, 'value', alg)), str(getattr(op, 'value', op)), cfg)
+
+
+def reference_for(accepted, declared=False):
   """RefRecipe loaded with accepted rules [(regex, selector, cfg name)]."""
   from vf.oracle import resolve
-  ref = resolve.RefRecipe(library_supported)
+  ref = resolve.RefRecipe(declared_supported if declared else library_supported)
   for rx, sel, name in accepted:
     alg, cfg = CFGS[name]
     ref.add(rx, sel, alg, cfg, name)
